@@ -79,3 +79,21 @@ theorem wrapTags_kernel (indefOk ine defMode isCons isOct : Bool) (t : Tag) (ts 
                simp_all [liftWrap, liftLen, List.append_assoc])
 
 end Asn1.Kernels
+
+namespace Asn1.Kernels
+open Py
+
+/-- the model's header loop on a single tag, spelled out: a constructed value in indefinite mode (CER; BER with
+    `defMode=False`) under an encoder that supports the indefinite form gets `80` and a closing `00 00`; a primitive
+    one always gets a definite length and no end-of-octets -/
+theorem wrapTags_single (indefOk dm isCons : Bool) (t : Tag) (sub : Bytes) :
+    Asn1.wrapTags indefOk dm isCons true [t] sub =
+      (if isCons && !dm && indefOk then .ok (Asn1.encodeTag t isCons ++ [0x80] ++ sub ++ [0, 0])
+       else match Asn1.encodeLength sub.length with
+         | some l => .ok (Asn1.encodeTag t isCons ++ l ++ sub ++ (if isCons && !dm then [0, 0] else []))
+         | none => .error .refused) := by
+  cases isCons <;> cases dm <;> cases indefOk <;>
+    simp [Asn1.wrapTags, encLen, Asn1.wrapTags.eooBytesE] <;>
+    (cases h : Asn1.encodeLength sub.length <;> simp [Asn1.wrapTags])
+
+end Asn1.Kernels
